@@ -1319,6 +1319,51 @@ def rule_r9(chk, prog, reg):
                           'last pass contains) are enabled but never '
                           'scheduled', loc=m.loc(r), nontrivial=True)
         chk.floor('C14.R9', f'returns of {where}', nret, 1)
+        # every pass list the builder returns is consumed: either the
+        # strategy iterates over the whole list of passes, or it uses each
+        # position the builder fills
+        bf_ = m.func(builder)
+        arities = set()
+        for r_ in walk_no_nested(bf_):
+            if isinstance(r_, ast.Return) and r_.value is not None:
+                v_ = r_.value
+                if isinstance(v_, ast.Name):
+                    ds_ = [s_.value for s_ in walk_no_nested(bf_)
+                           if isinstance(s_, ast.Assign) and any(
+                               isinstance(t_, ast.Name) and t_.id == v_.id
+                               for t_ in s_.targets)]
+                    v_ = ds_[0] if len(ds_) == 1 else v_
+                if isinstance(v_, (ast.List, ast.Tuple)) and not any(
+                        isinstance(e_, ast.Starred) for e_ in v_.elts):
+                    arities.add(len(v_.elts))
+                else:
+                    arities.add(None)
+        used = set()
+        whole = False
+        for x in ast.walk(f):
+            if isinstance(x, ast.Subscript) and isinstance(
+                    x.value, ast.Name) and x.value.id == pv:
+                if isinstance(x.slice, ast.Constant) and isinstance(
+                        x.slice.value, int):
+                    used.add(x.slice.value)
+                else:
+                    whole = True
+            elif isinstance(x, ast.Name) and x.id == pv and isinstance(
+                    x.ctx, ast.Load) and not isinstance(
+                        getattr(x, '_parent', None), ast.Subscript):
+                whole = True
+        if not whole:
+            for k_ in arities:
+                if k_ is None:
+                    continue
+                missing = sorted(set(range(k_)) - used)
+                chk.check('C14.R9', where, f'all {k_} pass lists of '
+                          f'{builder}() are applied', not missing,
+                          f'{builder}() returns {k_} pass lists but '
+                          f'{where} only uses positions {sorted(used)}: the '
+                          f'mutators of pass list(s) {missing} are enabled '
+                          'and built but never applied', loc=m.loc(f),
+                          nontrivial=True)
         if modname == 'strategy_hierarchical':
             # every pass that has mutators is swept: an iteration of the
             # loop over the passes that does not enter the sweep loop is
